@@ -49,7 +49,9 @@ class backend:
 
 @st.composite
 def world_case(draw, kinds=None, max_inputs=4):
-    return {"world": draw(worlds.world_case(max_inputs=max_inputs, kinds=kinds)), "tamper": draw(st.sampled_from(TAMPERS)), "target": draw(st.integers(0, 7)), "backend": draw(st.booleans())}
+    # the small draws first: what follows a world (many draws) is what an exhausted example buffer zero-fills
+    head = {"tamper": draw(st.sampled_from(TAMPERS)), "target": draw(st.integers(0, 7)), "backend": draw(st.booleans())}
+    return {"world": draw(worlds.world_case(max_inputs=max_inputs, kinds=kinds)), **head}
 
 
 def family(kind):
